@@ -6,6 +6,7 @@ MODULES = {
     "C03": "props.c03",
     "C04": "props.c04",
     "C05": "props.c05",
+    "C09": "props.c09",
     "C11": "props.c11",
 }
 
